@@ -200,6 +200,30 @@ end package;
 }
 
 #[test]
+fn search_names_in_block_guard_condition_and_header() {
+    check_search_reference(
+        "
+entity ent is
+end entity;
+
+architecture a of ent is
+  signal decl : natural := 0;
+  signal sig : natural;
+begin
+  blk : block (decl = 0) is
+    generic (gen : natural := 0);
+    generic map (gen => decl);
+    port (prt : in natural);
+    port map (prt => decl);
+  begin
+    sig <= decl;
+  end block;
+end architecture;
+",
+    );
+}
+
+#[test]
 fn search_names_in_discrete_ranges() {
     check_search_reference(
         "
